@@ -1281,6 +1281,21 @@ fn plain(mg: &MoveGenerator, q: &mut Searcher, b: &Board, d: u8) -> i32 {
     for m in ms { let v = -plain(mg, q, &b.clone_with_move(&m), d - 1); if v > best { best = v; } }
     best
 }
+/// the same value by a plain fail-soft alpha-beta of my own (no ordering, no table, no pruning beyond the cut-off): orders of
+/// magnitude cheaper than `plain` on positions with many men; checked against `plain` on the small corpus below
+fn plain_ab(mg: &MoveGenerator, q: &mut Searcher, b: &Board, d: u8, mut alpha: i64, beta: i64) -> i64 {
+    if d == 0 { return q.verif_quiescence(b) as i64; }
+    let ms = mg.generate_moves(b);
+    if ms.is_empty() { return if mg.is_in_check(b) { -1_000_000 } else { 0 }; }
+    let mut best = i64::MIN;
+    for m in ms {
+        let v = -plain_ab(mg, q, &b.clone_with_move(&m), d - 1, -beta, -alpha);
+        if v > best { best = v; }
+        if best > alpha { alpha = best; }
+        if alpha >= beta { break; }
+    }
+    best
+}
 /// C05 (bounded): completed iterative-deepening searches to depth 1..3 from a fresh engine report the minimax value of the
 /// depth-limited tree with quiescence leaves, and the returned move attains it (mate scores compared as won / lost)
 fn minimax_cmd(args: &[String]) -> i32 {
@@ -1309,6 +1324,8 @@ fn minimax_cmd(args: &[String]) -> i32 {
         for d in 1..=maxd {
             if men > 10 { continue; }
             let want = plain(&mg, &mut q, &b, d);
+            let want_ab = plain_ab(&mg, &mut q, &b, d, -2_000_000, 2_000_000);
+            if want_ab != want as i64 { eprintln!("ORACLE MISMATCH plain {} vs plain_ab {} at {} depth {}", want, want_ab, fen, d); return 2; }
             let mut s = Searcher::new();
             let (score, mv) = s.find_best_move(&b, d, None);
             rep.evals += 1;
@@ -1379,12 +1396,12 @@ fn minimax_cmd(args: &[String]) -> i32 {
             if mg.generate_moves(&b).is_empty() { continue; }
             let f = to_fen(&p);
             let d = 3u8;
-            let want = plain(&mg, &mut q, &b, d);
+            let want = plain_ab(&mg, &mut q, &b, d, -2_000_000, 2_000_000) as i32;
             let mut s = Searcher::new();
             let (score, mv) = s.find_best_move(&b, d, None);
             rep.evals += 1;
             let same = class(score) == class(want) && (class(want) != 0 || score == want);
-            let mv_ok = match mv { Some(m) => { let v = -plain(&mg, &mut q, &b.clone_with_move(&m), d - 1); class(v) == class(want) && (class(want) != 0 || v == want) }, None => false };
+            let mv_ok = match mv { Some(m) => { let v = -(plain_ab(&mg, &mut q, &b.clone_with_move(&m), d - 1, -2_000_000, 2_000_000) as i32); class(v) == class(want) && (class(want) != 0 || v == want) }, None => false };
             if !same || !mv_ok {
                 rep.violation = Some(format!("{{\"input\": {{\"fen\": {}, \"depth\": {}}}, \"real\": {{\"score\": {}, \"move\": {}, \"move_attains_value\": {}}}, \"expected\": {{\"minimax\": {}}}}}",
                     jstr(&f), d, score, jstr(&mv.map(|m| m.to_algebraic()).unwrap_or("0000".into())), mv_ok, want));
